@@ -22,6 +22,7 @@ add(os.path.join(root, "h"), os.path.join(repo, "internal/verifh"))
 add(os.path.join(root, "hp"), os.path.join(repo, "internal/listobjects/pipeline/verifh"))
 add(os.path.join(root, "x"), repo)
 add(os.path.join(root, "rt"), os.path.join(repo, "internal/verifrt"))
+add(os.path.join(root, "rtpub"), os.path.join(repo, "pkg/verifrt"))
 i = 2
 while i < len(sys.argv):
     if sys.argv[i] == "--merge":
